@@ -61,6 +61,9 @@ def run(ctx):
         "names that resolve INSIDE the dataset directory through '..' (a/../b) may be accepted or refused",
     ]
     ctx.mc("MC_FileStore", ctx.pick("MC_FileStore_quick", "MC_FileStore"), workers=8)
+    # every reachable storage state (operation counter outside the VIEW): histories of any length
+    ctx.mc("MC_FileStore", "MC_FileStore_unbounded", workers=8)
+    ctx.notes["model_complete_over_history_length"] = True
     from .. import tlc
     bad = tlc.model_check("MC_FileStore", "MC_FileStore_perCall", workers=4)
     if bad["ok"]:
